@@ -80,9 +80,39 @@ def cases(tier, seed):
         if p and not p.startswith('-'):
             yield ['e2e', 'positional', [p]]
             yield ['e2e', 'positional', [p, '!q1 ']]
+    # patterns given partly in the script's defaults, partly on the command
+    # line (option and legacy positional spelling)
+    for a, b in itertools.product(['q1', '!q1 ', 'q2', '^test_q3'], ['q1', 'q2', '!q2', 'q0|q3']):
+        for how in ('defaults+option', 'defaults+positional', 'all in defaults'):
+            yield ['e2e_defaults', how, [a, b]]
+    # --layer lists when the layers run in child processes, layer names that
+    # differ in one character a regex would treat specially
+    for ln in (1, 2):
+        for lst in itertools.product(CL_PATS, repeat=ln):
+            if ln == 2 and lst[0] == lst[1]:
+                continue
+            for mode in ('seq', 'j2', 'j3'):
+                yield ['e2e_child', mode, list(lst)]
     # --module (and multi-pattern --test) end to end on modules discovered on
     # disk: shared with C03's real-discovery worlds
     yield from _m_cases()
+
+
+CL_PATS = [r'a\.b', 'a_b', '!a_b', 'a.b$', '!axb', r'!a\.b', 'tests.a', 'b$']
+CL_WORLD = {
+    'layers': [{'n': nm, 'b': [], 'k': 'i', 'h': ['setUp', 'tearDown']} for nm in ('a.b', 'a_b', 'axb', 'zz')],
+    'tests': [{'n': 'q%d' % i, 'l': nm, 's': 'pass'} for i, nm in enumerate(('a.b', 'a_b', 'axb', 'zz'))] +
+             [{'n': 'u', 'l': None, 's': 'pass'}],
+}
+
+
+def history_cases(tier):
+    """runs that share their defaults and differ in the command line"""
+    return [['e2e_defaults', 'defaults+positional', ['q1', 'q2']],
+            ['e2e_defaults', 'all in defaults', ['q1', '!q10']],
+            ['e2e_defaults', 'defaults+option', ['q1', '!q10']],
+            ['e2e_defaults', 'defaults+positional', ['q1', 'q0|q3']],
+            ['e2e', '-t', ['q2']], ['e2e', '--layer', ['AB']], ['e2e', '--layer', ['!AB']]]
 
 
 def _m_cases():
@@ -214,6 +244,38 @@ def run_case(case):
         for v in viol:
             v['sig'] = {'opt': '-m/-t on disk'}
         return {'evals': 2, 'nontrivial': 2, 'violations': viol, 'outcome': 'e2e_disk'}
+    if case[0] == 'e2e_child':
+        _, mode, lst = case
+        argv = [x for p in lst for x in ('--layer', p)] + {'seq': [], 'j2': ['-j2'], 'j3': ['-j3']}[mode]
+        res = runrt.run_world(CL_WORLD, argv)
+        ran = sorted(ev[2] for ev in res.trace if ev[1] == 't' and ev[3] == 'body')
+        want = sorted(t['n'] for t in CL_WORLD['tests']
+                      if spec_accept(lst, 'vtw.tests.' + t['l'] if t['l'] else 'zope.testrunner.layer.UnitTests'))
+        viol = []
+        if res.escaped:
+            viol.append({'clause': 'run_aborted', 'sig': {'opt': '--layer', 'mode': mode}, 'detail': '%s\n%s' % (argv, res.escaped_tb)})
+        elif ran != want or res.failed:
+            viol.append({'clause': 'e2e_selection', 'sig': {'opt': '--layer', 'mode': mode},
+                         'detail': 'argv=%s ran=%s spec selects %s (failed=%s errors=%s)' % (argv, ran, want, res.failed, res.errors)})
+        return {'nontrivial': True, 'violations': viol, 'outcome': ('child', len(ran))}
+    if case[0] == 'e2e_defaults':
+        _, how, lst = case
+        if how == 'defaults+option':
+            defaults, argv = ['-t', lst[0]], ['-t', lst[1]]
+        elif how == 'defaults+positional':
+            defaults, argv = ['-t', lst[0]], ['.', lst[1]]
+        else:
+            defaults, argv = ['-t', lst[0], '-t', lst[1]], []
+        res = runrt.run_world(WORLD, argv, defaults=defaults)
+        ran = sorted({ev[2] for ev in res.trace if ev[1] == 't' and ev[3] == 'body'})
+        want = sorted(n for n in TID if spec_accept(lst, TID[n]))
+        viol = []
+        if res.escaped:
+            viol.append({'clause': 'run_aborted', 'sig': {'opt': how}, 'detail': '%s %s\n%s' % (defaults, argv, res.escaped_tb)})
+        elif ran != want:
+            viol.append({'clause': 'e2e_selection', 'sig': {'opt': how},
+                         'detail': 'defaults=%s argv=%s ran=%s spec selects %s' % (defaults, argv, ran, want)})
+        return {'nontrivial': True, 'violations': viol, 'outcome': (how, len(ran))}
     _, opt, lst = case
     argv = []
     if opt == 'positional':
